@@ -7,6 +7,7 @@ import (
 	"testing"
 
 	modbus "github.com/aldas/go-modbus-client"
+	"github.com/aldas/go-modbus-client/packet"
 	"pgregory.net/rapid"
 
 	"verif/internal/cat"
@@ -579,6 +580,141 @@ func genBuilder(t *rapid.T) builderCase {
 }
 
 var chkBuilder = harness.Define("builder-request-frames", genBuilder, runBuilder).Repeated(2)
+
+// ---------------------------------------------------------------------------
+// several write requests whose payloads are consecutive sub-slices of ONE caller buffer (a register image or coil pattern written in
+// chunks): every sub-slice but the last has spare capacity - the following chunk. Each request serialises to the ADU of the arguments
+// the caller passed, whatever was constructed or serialised before, and the caller's buffer is the caller's.
+
+type sharedCase struct {
+	Framing spec.Framing `json:"framing"`
+	FC      uint8        `json:"fc"` // 15 | 16 | 23
+	Unit    uint8        `json:"unit"`
+	Addr    uint16       `json:"addr"`
+	// Parts: chunk sizes in coils (fc15) or registers (fc16, fc23)
+	Parts []int `json:"parts"`
+	// Data: the whole image: packed coils (bit i = coil i) or register bytes
+	Data spec.Hex `json:"data"`
+	// ConstructFirst: all requests are constructed before the first is serialised (else construct, serialise, construct the next...)
+	ConstructFirst bool `json:"construct_first"`
+}
+
+func runShared(c sharedCase) harness.Result {
+	total := 0
+	for _, n := range c.Parts {
+		total += n
+	}
+	var bools, origBools []bool
+	var buf, orig []byte
+	if c.FC == 15 {
+		bools = cat.CoilsOf(c.Data, total)
+		origBools = append([]bool(nil), bools...)
+	} else {
+		buf = append(make([]byte, 0, 2*total), c.Data...)
+		if len(buf) != 2*total {
+			return harness.Result{Labels: []string{"harness:short-data"}}
+		}
+		orig = append([]byte(nil), buf...)
+	}
+	type item struct {
+		q    packet.Request
+		want []byte
+	}
+	var items []item
+	construct := func(i, off, n int) (item, error) {
+		tx := uint16(0x0100 + i)
+		addr := c.Addr + uint16(off)
+		var q packet.Request
+		var err error
+		var e spec.Req
+		switch c.FC {
+		case 15:
+			q, err = cat.NewWriteCoilsRequest(c.Framing, c.Unit, tx, addr, bools[off:off+n])
+			e = expected(spec.Req{FC: 15, Unit: c.Unit, Tx: tx, Addr: addr, Qty: uint16(n), Payload: spec.PackCoils(origBools[off : off+n])})
+		case 16:
+			r := spec.Req{FC: 16, Unit: c.Unit, Tx: tx, Addr: addr, Payload: buf[2*off : 2*(off+n)]}
+			q, err = cat.NewRequest(c.Framing, r)
+			r.Payload = orig[2*off : 2*(off+n)]
+			e = expected(r)
+		default:
+			r := spec.Req{FC: 23, Unit: c.Unit, Tx: tx, Addr: addr, Qty: 3, WAddr: addr, Payload: buf[2*off : 2*(off+n)]}
+			q, err = cat.NewRequest(c.Framing, r)
+			r.Payload = orig[2*off : 2*(off+n)]
+			e = expected(r)
+		}
+		if err != nil {
+			return item{}, err
+		}
+		return item{q, spec.EncodeRequest(c.Framing, e)}, nil
+	}
+	check := func(i int, it item, when string) error {
+		if got := it.q.Bytes(); !bytes.Equal(got, it.want) {
+			return fmt.Errorf("chunk %d of %d (%d %s each taken from one caller buffer; %s): serialises to\n  %x\nthe ADU of the arguments passed is\n  %x", i+1, len(c.Parts), c.Parts[i], map[bool]string{true: "coils", false: "registers"}[c.FC == 15], when, got, it.want)
+		}
+		return nil
+	}
+	off := 0
+	for i, n := range c.Parts {
+		it, err := construct(i, off, n)
+		if err != nil {
+			return harness.Fail("constructor refused chunk %d (%d units): %v", i+1, n, err)
+		}
+		items = append(items, it)
+		if !c.ConstructFirst {
+			if err := check(i, it, "constructed and serialised after the chunks before it"); err != nil {
+				return harness.Fail("%v", err)
+			}
+		}
+		off += n
+	}
+	for round := 0; round < 2; round++ {
+		for i, it := range items {
+			if err := check(i, it, fmt.Sprintf("all constructed first, serialisation round %d", round+1)); err != nil {
+				return harness.Fail("%v", err)
+			}
+		}
+	}
+	if c.FC == 15 {
+		for i := range bools {
+			if bools[i] != origBools[i] {
+				return harness.Fail("after %d fc15 requests were built from consecutive sub-slices of one coil pattern, coil %d of the CALLER'S pattern has changed", len(c.Parts), i)
+			}
+		}
+	} else if !bytes.Equal(buf, orig) {
+		return harness.Fail("after %d fc%d requests were built from consecutive sub-slices of one register image, the CALLER'S image has changed:\n  %x\nwas\n  %x", len(c.Parts), c.FC, buf, orig)
+	}
+	labels := []string{fmt.Sprintf("fc%d", c.FC), c.Framing.String(), fmt.Sprintf("chunks:%d", len(c.Parts))}
+	if c.FC == 15 && c.Parts[0]%8 != 0 {
+		labels = append(labels, "first-chunk-ends-inside-a-byte")
+	}
+	return harness.Result{NonTrivial: len(c.Parts) >= 2, Labels: labels}
+}
+
+func genShared(t *rapid.T) sharedCase {
+	c := sharedCase{Framing: gen.Framing(t), FC: rapid.SampledFrom([]uint8{15, 16, 23}).Draw(t, "fc"), Unit: rapid.Uint8().Draw(t, "unit"),
+		Addr: uint16(rapid.IntRange(0, 50000).Draw(t, "addr")), ConstructFirst: rapid.Bool().Draw(t, "construct_first")}
+	limit := map[uint8]int{15: 1968, 16: 123, 23: 121}[c.FC]
+	k := rapid.IntRange(2, 4).Draw(t, "chunks")
+	total := 0
+	for i := 0; i < k; i++ {
+		n := rapid.IntRange(1, limit).Draw(t, "n")
+		if rapid.Bool().Draw(t, "small") {
+			n = rapid.IntRange(1, 20).Draw(t, "n_small")
+		}
+		c.Parts = append(c.Parts, n)
+		total += n
+	}
+	if c.FC == 15 {
+		c.Data = gen.Payload(t, "pattern", (total+7)/8)
+	} else {
+		c.Data = gen.Payload(t, "image", 2*total)
+	}
+	return c
+}
+
+var chkShared = harness.Define("requests-from-one-caller-buffer", genShared, runShared).Repeated(2)
+
+func TestSharedBuffer(t *testing.T) { chkShared.Rapid(t, harness.Pick(3000, 150000)) }
 
 func TestBuilderRandom(t *testing.T) { chkBuilder.Rapid(t, harness.Pick(3000, 200000)) }
 
